@@ -84,6 +84,7 @@ func init() {
 		Run: func(c *chk.Ctx, tier string) {
 			c.Clause("C08-D1")
 			ruleStopOnce(c, "server")
+			ruleStopAlwaysCloses(c, "server")
 			ruleRunCoupled(c, "server")
 			ruleRunRestart(c)
 			ruleStartOnce(c)
@@ -99,6 +100,7 @@ func init() {
 			c.Clause("C08-D5")
 			ruleStopCancelsTable(c, "server", c.M.SUsed, nil, "in-flight call contexts")
 			ruleStopCancelsTable(c, "server", c.M.SCall, c.M.RCancel, "pending callbacks")
+			ruleCallbackTakeCompletes(c)
 			c.Clause("C08-D6")
 			ruleRetainNotifications(c)
 			ruleDispatcherExit(c)
